@@ -162,25 +162,79 @@ def run(ck, fb, fbd):
     ck.floor("construction_functions", n_fn, 7)
 
 
+def face_chain_rule(ck, fb):
+    """entry for other properties (C08: a face is a closed loop, so both of its sides are): C11.topology on add_face"""
+    ck.rule("C11.topology", "add_face's topology check rejects unless every halfedge starts where its predecessor ends, and unless the last ends where the first begins")
+    fs = handle_fns(fb, TK, "add_face")
+    if len(fs) != 1:
+        raise AnalysisBroken("TopologyKernel::add_face (handle overload) not unique: %d" % len(fs))
+    f = fs[0]
+    grows = [(b, i) for b, i, x in f.nodes(("call",)) if x.get("pn", "").split("::")[-1] in ("emplace_back", "push_back") and "faces_" in estr(f.resolve(x.get("r")))]
+    if len(grows) != 1:
+        raise AnalysisBroken("add_face: the append to faces_ is not unique (%d)" % len(grows))
+    rets = [(b, i, x) for b, i, x in f.tops() if x.get("k") == "ret" and b in f.reach()]
+    reject = [(b, i, x) for b, i, x in rets if not f.dominates(grows[0], (b, i))]
+    topology_face(ck, f, reject)
+
+
 def topology_face(ck, f, reject):
-    need_names(f, ["i"], None, "C11.topology")
-    p0 = f.d["params"][0]["n"]
-    ptc = f.d["params"][1]["n"]
+    """the halfedge chain test of add_face, on canonical forms: either the index form (pairs i, i+1 and last-to-first,
+    or one modulo form) or the walk form (a running vertex compared with from(h), then set to to(h))"""
+    import re
+    from .c10 import L
+    from .canon import eq_sides
+    l = L(f)
+    cn = l.cn
     consecutive = closing = False
+    seen_endpoint = False
     for b, i, x in reject:
-        for cnd, pol in atoms(f, b):
-            if "to_vertex_handle(" in cnd and "from_vertex_handle(" in cnd and "!=" in cnd and pol is True:
-                if "%s[i]" % p0 in cnd and ("%s[(i + 1)]" % p0 in cnd):
-                    # the loop must visit every consecutive pair: bound i + 1 < size
-                    if any(("((i + 1) < %s.size())" % p0) == c2 and p2 is True for c2, p2 in atoms(f, b)):
+        fs = l.facts(b)
+        strs = {(s_, pol) for s_, pol, c in fs}
+        for s_, pol, c in fs:
+            ne = eq_sides(c, not pol) if isinstance(pol, bool) else None
+            if not ne:
+                continue
+            ea, eb = l.endpoint(ne[0]), l.endpoint(ne[1])
+            sa, sb = cn.s(ne[0]), cn.s(ne[1])
+            if ea or eb:
+                seen_endpoint = True
+            # index forms
+            if ea and eb and {ea[0], eb[0]} == {"to", "from"}:
+                to_h, from_h = (ea[1], eb[1]) if ea[0] == "to" else (eb[1], ea[1])
+                m = re.fullmatch(r"P0\[(it\d+\(0\))\]", to_h)
+                if m:
+                    ix = m.group(1)
+                    if from_h == "P0[(%s + 1)]" % ix and ("((%s + 1) < P0.size())" % ix, True) in strs:
                         consecutive = True
-                if ("%s.back()" % p0 in cnd and "%s.front()" % p0 in cnd):
+                    if from_h in ("P0[((%s + 1) %% P0.size())]" % ix,) and ("(%s < P0.size())" % ix, True) in strs:
+                        consecutive = closing = True
+                if to_h in ("P0.back()", "P0[(P0.size() - 1)]") and from_h in ("P0.front()", "P0[0]"):
                     closing = True
-                if "%" in cnd and ("(i < %s.size())" % p0, True) in atoms(f, b):
+            # walk form: from(each(P0)) != running vertex
+            run = None
+            if ea and ea == ("from", "each(P0)") and re.fullmatch(r"v\d+", sb):
+                run = ne[1]
+            if eb and eb == ("from", "each(P0)") and re.fullmatch(r"v\d+", sa):
+                run = ne[0]
+            if run is not None:
+                rv = [y for y in [run] if True][0]
+                from .facts import unwrap as _u
+                rvn = _u(f.resolve(rv))
+                vid = rvn.get("id")
+                init = l.endpoint(cn.decl[vid][0].get("init")) if vid in cn.decl and cn.decl[vid][0].get("init") is not None else None
+                steps = [m_ for k_, bb, ii, m_ in cn.mods.get(vid, [])]
+                ok_step = bool(steps) and all(m_.get("k") in ("asg", "call") and l.endpoint((m_.get("r") if m_.get("k") == "asg" else (m_.get("a") or [None])[0])) == ("to", "each(P0)") for m_ in steps)
+                if ok_step and init in (("from", "P0.front()"), ("from", "P0[0]")):
+                    consecutive = True
+                if ok_step and init in (("to", "P0.back()"), ("to", "P0[(P0.size() - 1)]")):
                     consecutive = closing = True
-        if not any(ptc == cnd and pol is True for cnd, pol in atoms(f, b)) and any("to_vertex_handle(" in cnd for cnd, pol in atoms(f, b)):
-            consecutive = False
-    (ck.ok if consecutive else lambda r, w, t: ck.violate(r, w, t, "C11.topology:add_face:consecutive"))("C11.topology", f.where, "add_face rejects when to_vertex(h[i]) != from_vertex(h[i+1]) for every i with i+1 < size")
+            # walk form, closing test after the loop: running vertex != from(front)
+            for e1, s2 in ((ea, sb), (eb, sa)):
+                if e1 in (("from", "P0.front()"), ("from", "P0[0]")) and re.fullmatch(r"v\d+", s2) and not l.in_loop(b):
+                    closing = True
+    if not seen_endpoint:
+        raise AnalysisBroken("%s: add_face: no rejecting return is guarded by a from/to-vertex comparison - the chain test is written in a form rule C11.topology does not know" % f.where)
+    (ck.ok if consecutive else lambda r, w, t: ck.violate(r, w, t, "C11.topology:add_face:consecutive"))("C11.topology", f.where, "add_face rejects unless every halfedge starts where its predecessor ends (index pairs i,i+1 with i+1 < size, a modulo form, or a running-vertex walk)")
     (ck.ok if closing else lambda r, w, t: ck.violate(r, w, t, "C11.topology:add_face:closing"))("C11.topology", f.where, "add_face rejects when the last halfedge does not end where the first begins")
 
 
